@@ -299,7 +299,7 @@ func (c *Ctx) provablyDistinct(a, b T) bool {
 	// an object id read from a field of the entry heap existed at entry; an id
 	// handed out by an allocation counter did not
 	entryLoaded := func(s string) bool {
-		return (strings.HasPrefix(s, "(select H0_F.") || strings.HasPrefix(s, "(ghost.g_shapeid ")) && !strings.Contains(s, "alloc")
+		return (strings.HasPrefix(s, "(select H0_F.") || strings.HasPrefix(s, "(ghost.g_shapeid ") || strings.HasPrefix(s, "(ghost.g_unrollid ")) && !strings.Contains(s, "alloc")
 	}
 	allocBased := func(s string) bool {
 		bo, _, ok := splitBaseOff(s)
